@@ -151,7 +151,7 @@ func (e *Engine) checkProperty(verif, prop, tier string, t0 time.Time) int {
 			}
 		}
 	}
-	opts := SolveOpts{TimeoutMs: 5000, RecheckMs: 10000}
+	opts := SolveOpts{TimeoutMs: 5000, RecheckMs: 20000}
 	if tier == "thorough" {
 		opts.RecheckMs = 60000
 		opts.AllSolvers = true
@@ -311,6 +311,42 @@ func (e *Engine) checkProperty(verif, prop, tier string, t0 time.Time) int {
 		"vacuity":                   map[string]int{"cover_checks": covers, "passed": coversOK},
 		"samples":                   samples,
 		"claim":                     p.Claim,
+	}
+	if tier == "thorough" {
+		// dead-path audit (informational): checked paths the hypotheses do not admit
+		var dead []string
+		for _, r := range results {
+			if r.Err != nil || r.VC == nil || strings.Contains(r.Name, ":") {
+				continue
+			}
+			for _, d := range deadGuards(r.VC, r.Flags, 1500) {
+				if !strings.Contains(d, "#safety[panic") {
+					if k := strings.Index(d, " guard "); k >= 0 {
+						d = d[:k]
+					}
+					dead = append(dead, d)
+				}
+			}
+		}
+		sort.Strings(dead)
+		ev.Coverage["dead_paths_other_than_select_panics"] = dead
+		if os.Getenv("CBV_NO_SELFTEST") == "" {
+			mr := e.selfTest(verif, prop)
+			killed := 0
+			for _, m := range mr {
+				if m.Killed {
+					killed++
+				}
+			}
+			ev.Coverage["mutants"] = map[string]interface{}{"total": len(mr), "reported": killed, "results": mr,
+				"what": "reverts of the fix: commits recorded for this property and the seeded changes under /verif/seeded filed for it, each applied to a scratch copy of /repo and checked with the quick tier"}
+			fmt.Printf("selftest property=%s mutants=%d reported=%d\n", prop, len(mr), killed)
+			for _, m := range mr {
+				if !m.Killed {
+					fmt.Printf("selftest NOT-REPORTED %s %s\n", m.Name, m.Note)
+				}
+			}
+		}
 	}
 	os.MkdirAll(filepath.Join(verif, "evidence"), 0o755)
 	b, _ := json.MarshalIndent(ev, "", " ")
